@@ -636,7 +636,11 @@ func substituted(c *core.Ctx, r *core.Rand, i int) {
 	for k := 0; k < depth; k++ {
 		exA.Use(pass)
 	}
+	retry := r.P(1, 3) // the substituting stage runs the rest of the chain twice (a retry) and returns the second result
 	exA.Use(func(next kmipserver.Next, ctx context.Context, rm *kmip.RequestMessage) (*kmip.ResponseMessage, error) {
+		if retry {
+			next(ctx, T(rm))
+		}
 		return next(ctx, T(rm))
 	})
 	if r.Bool() {
@@ -671,6 +675,11 @@ func substituted(c *core.Ctx, r *core.Rand, i int) {
 		return string(ttlv.MarshalText(&cp))
 	}
 	a, b := norm(respA), norm(respB)
+	if retry {
+		c.Count("substituted_messages.retried", 1)
+		label += ", rest of the chain run twice"
+		logB.calls = append(append([]string{}, logB.calls...), logB.calls...) // every execution runs all inner stages, the same way
+	}
 	if fmt.Sprint(logA.calls) != fmt.Sprint(logB.calls) {
 		c.Violation("C19:server-message:substituted-message:handler-executions", fmt.Sprintf("a middleware passed on a substituted message (%s): handlers ran for %v, for the substituted message alone they run for %v", label, logA.calls, logB.calls),
 			map[string]any{"response_through_chain": a, "response_to_substituted_message": b})
@@ -752,6 +761,94 @@ func sharedOptions(c *core.Ctx, r *core.Rand, i int) {
 	}
 }
 
+// detachedContext (client chain): what a stage hands to its continuation is what the inner stages get - a context
+// included. A stage may detach the caller's cancelled context, or answer from a cache under an expired deadline;
+// the stages concerned run, whatever state the outer context is in.
+func detachedContext(c *core.Ctx, r *core.Rand, i int) {
+	srv := script.NewServer(func(rx script.Received, _ *memnet.Conn) *kmip.ResponseMessage {
+		return script.OK(rx.Msg, func(int, *kmip.RequestBatchItem) kmip.OperationPayload {
+			return &payloads.ActivateResponsePayload{UniqueIdentifier: "from-server"}
+		})
+	})
+	defer srv.Close()
+	var mu sync.Mutex
+	var trace []string
+	log := func(s string) { mu.Lock(); trace = append(trace, s); mu.Unlock() }
+	pass := func(name string) kmipclient.Middleware {
+		return func(next kmipclient.Next, ctx context.Context, m *kmip.RequestMessage) (*kmip.ResponseMessage, error) {
+			log(name)
+			return next(ctx, m)
+		}
+	}
+	variant := i % 3
+	var mws []kmipclient.Middleware
+	var want []string
+	nOuter := r.Intn(2)
+	switch variant {
+	case 0: // the outermost stage detaches the caller's (cancelled) context
+		mws = append(mws, func(next kmipclient.Next, ctx context.Context, m *kmip.RequestMessage) (*kmip.ResponseMessage, error) {
+			log("detach")
+			return next(context.WithoutCancel(ctx), m)
+		})
+		want = append(want, "detach")
+		for k := 0; k < 1+nOuter; k++ {
+			mws = append(mws, pass(fmt.Sprintf("inner%d", k)))
+			want = append(want, fmt.Sprintf("inner%d", k))
+		}
+	case 1: // an outer stage hands down an already expired deadline; the next stage answers from its cache
+		mws = append(mws, func(next kmipclient.Next, ctx context.Context, m *kmip.RequestMessage) (*kmip.ResponseMessage, error) {
+			log("expired-deadline")
+			dctx, cancel := context.WithDeadline(ctx, time.Unix(0, 0))
+			defer cancel()
+			return next(dctx, m)
+		}, func(next kmipclient.Next, ctx context.Context, m *kmip.RequestMessage) (*kmip.ResponseMessage, error) {
+			log("cache")
+			return respMsg("from-cache"), nil
+		})
+		want = append(want, "expired-deadline", "cache")
+	default: // cancelled caller context, detached in the middle of the chain: the outer pass-through stage runs as well
+		mws = append(mws, pass("outer"), func(next kmipclient.Next, ctx context.Context, m *kmip.RequestMessage) (*kmip.ResponseMessage, error) {
+			log("detach")
+			return next(context.WithoutCancel(ctx), m)
+		}, pass("inner"))
+		want = append(want, "outer", "detach", "inner")
+	}
+	cl, err := kmipclient.Dial("mem", kmipclient.WithDialerUnsafe(func(context.Context) (net.Conn, error) { return srv.L.Dial() }),
+		kmipclient.EnforceVersion(kmip.V1_4), kmipclient.WithMiddlewares(mws...))
+	if err != nil {
+		panic("harness: dial: " + err.Error())
+	}
+	defer cl.Close()
+	ctx, cancel := context.WithCancel(context.Background())
+	if variant != 1 {
+		cancel() // the caller has already given up; the chain decides what that means
+	}
+	defer cancel()
+	var resp *kmip.ResponseMessage
+	var rerr error
+	if p, pv, st := core.Guard(func() { resp, rerr = cl.Roundtrip(ctx, reqMsg(fmt.Sprintf("dc%d", i))) }); p {
+		c.Violation(core.PanicSig(pv, st), fmt.Sprintf("Roundtrip panicked: %v", pv), map[string]any{"stack": st})
+		return
+	}
+	c.Count("detached_context_runs", 1)
+	c.Distinct(core.Hash64("detached", fmt.Sprint(variant, nOuter)))
+	mu.Lock()
+	got := append([]string{}, trace...)
+	mu.Unlock()
+	wantID := "from-server"
+	if variant == 1 {
+		wantID = "from-cache"
+	}
+	if fmt.Sprint(got) != fmt.Sprint(want) || rerr != nil || resp == nil || msgOps.respID(resp) != wantID {
+		id := ""
+		if resp != nil {
+			id = msgOps.respID(resp)
+		}
+		c.Violation("C19:client:stages-skipped-on-context-state", fmt.Sprintf("client chain %v with a caller context that is %s: stages run %v, result %q / %v; every stage must receive the context its predecessor passed on and run (expected %v, %q)",
+			want, []string{"cancelled and detached by the first stage", "given an expired deadline by an outer stage, the next one answering from a cache", "cancelled and detached in the middle"}[variant], got, id, rerr, want, wantID), nil)
+	}
+}
+
 func Spec() *core.Spec {
 	slog.SetDefault(slog.New(slog.NewTextHandler(io.Discard, nil)))
 	return &core.Spec{
@@ -760,9 +857,15 @@ func Spec() *core.Spec {
 		Race:  true,
 		Rule: "all programs of length 0..3 (quick) / 0..4 (thorough) over 10 stage kinds {pass, call next 2x, 3x, call next twice concurrently (hedged; judged on the multiset of events), short-circuit with response, short-circuit with error, replace message, replace context, fail after next, rewrite response} " +
 			"for the client chain (scripted server as transport), the server message chain and the server batch-item chain; every program run once alone and once from 16 goroutines sharing the chain (race detector on); " +
-			"the recorded enter/core/exit trace of every request must equal the trace of a reference interpreter, event for event. the server chains also over a core that panics, returns an error or rejects the protocol version; several clients configured from middleware slices sharing a backing array; a message middleware substituting a message with another continuation option / version / item list, compared with a middleware-free executor given the substituted message; distinct = distinct (chain, program)",
-		Required: []string{"programs_run.client", "programs_run.server-message", "programs_run.server-batch-item", "concurrent_runs", "events", "hedged_programs_run", "programs_run.core-panic", "programs_run.core-error", "programs_run.core-version", "substituted_messages.option-changed", "substituted_messages.version-changed", "shared_option_clients"},
+			"the recorded enter/core/exit trace of every request must equal the trace of a reference interpreter, event for event. the server chains also over a core that panics, returns an error or rejects the protocol version; several clients configured from middleware slices sharing a backing array; client stages that detach a cancelled caller context or answer from a cache under an expired deadline; a message middleware substituting a message with another continuation option / version / item list, compared with a middleware-free executor given the substituted message; distinct = distinct (chain, program)",
+		Required: []string{"programs_run.client", "programs_run.server-message", "programs_run.server-batch-item", "concurrent_runs", "events", "hedged_programs_run", "programs_run.core-panic", "programs_run.core-error", "programs_run.core-version", "substituted_messages.option-changed", "substituted_messages.version-changed", "substituted_messages.retried", "detached_context_runs", "shared_option_clients"},
 		Families: []core.Family{
+			{Name: "detached-context", N: func(tier string) int {
+				if tier == core.Thorough {
+					return 1200
+				}
+				return 30
+			}, Run: detachedContext},
 			{Name: "shared-options", N: func(tier string) int {
 				if tier == core.Thorough {
 					return 3000
